@@ -99,6 +99,17 @@ def render_item(it, k):
             return [], ["local _as%d = %s --[[@as %s]]" % (k, v, t)]
         pre = {"cast": "", "cast+": "+", "cast-": "-", "cast?": "+?"}[form]
         return ["---@cast %s %s%s" % (v, pre, "" if form == "cast?" else t)], []
+    if kind == "tablit":
+        # a table literal typed by a declared name; f / g may be declared fields, zz / yy never are
+        body = {
+            "closure": "{ f = function(p) return p end, zz = function(p) return p end }",
+            "values": "{ f = 1, zz = \"s\", yy = nil }",
+            "nested": "{ zz = { zz = function(p) return p end, f = 1 }, f = { zz = 1 } }",
+            "method": "{ zz = function(self, p) return self.zz end, f = function(self) return self end }",
+            "index": "{ [1] = function(p) return p end, [\"zz\"] = function(p) return p end }",
+            "mixed": "{ 1, f = function(p) return p.zz end, zz = function(...) return ... end, g = {} }",
+        }[it["g"]]
+        return ["---@type %s" % ty(it["t"][0])], ["local %s = %s" % (it["n"], body)]
     if kind == "use":
         e = expr(it["e"], it["n"], it["w"])
         how = it["g"]
@@ -288,7 +299,7 @@ def run(ctx):
                                 "files": [[ROOT + "/a.lua", texts["a"]], [ROOT + "/b.lua", texts["b"]]]}})
     vlib.build(["vh-analysis"])
     results = replay(ctx, cases)
-    feats = {"selfsuper": 0, "mutualsuper": 0, "recalias": 0, "malformed": 0}
+    feats = {"selfsuper": 0, "mutualsuper": 0, "recalias": 0, "malformed": 0, "aliassuper": 0, "tablit": 0}
     seen = {}
     tokens = 0
     for i, c in enumerate(cases):
@@ -299,7 +310,7 @@ def run(ctx):
         for k in feats:
             feats[k] += 1 if f[k] else 0
         ctx.count(json.dumps(c["conf"]["items"], sort_keys=True),
-                  nontrivial=f["selfsuper"] or f["mutualsuper"] or f["recalias"] or f["malformed"])
+                  nontrivial=f["selfsuper"] or f["mutualsuper"] or f["recalias"] or f["malformed"] or f["aliassuper"])
         if r.get("ok"):
             ctx.validated(1)
             tokens += r.get("tokens", 0)
@@ -320,8 +331,8 @@ def run(ctx):
     ctx.note("programs_with_feature", feats)
     ctx.note("tokens_queried", tokens)
     ctx.rule("program = sequence of <= 14 generator items (AnnoGen.tla) over two files x Lua level x strict mode, produced "
-             "by seeded TLC simulation; non-trivial = contains self/mutual inheritance, a recursive alias or a malformed "
-             "annotation; each program: index, diagnose, semantic info + declaration of every token, type of every "
+             "by seeded TLC simulation; non-trivial = contains self/mutual inheritance, a recursive alias, inheritance through "
+             "an alias of the class or a malformed annotation; each program: index, diagnose, semantic info + declaration of every token, type of every "
              "expression, rendering at 4 levels, within %.0f s CPU" % CPU_BUDGET_S)
     ctx.assume("no oracle beyond termination without panic; 8 MiB thread stack as for a default main thread")
     for sig, items in sorted(seen.items()):
